@@ -44,19 +44,28 @@ def dispatcher_corpus():
 def run_dispatcher(ctx):
     """the dispatcher with its two kinds of mutex: schedules replayed on the machine of CLDispConc.v and on the real
     EventDispatcher under the cooperative scheduler"""
-    res = vlib.build_many(ctx, [dict(name='dispconc', src='dispconc.cpp', defs=[])])
-    binary, err = res['dispconc']
-    if binary is None:
-        raise RuntimeError('harness dispconc.cpp does not compile against /repo: %s' % err[-1500:])
+    # two builds: std::map, and the map the library selects itself (std::unordered_map for an int key)
+    specs = [dict(name='dispconc', src='dispconc.cpp', defs=['VH_MAP=1']), dict(name='dispconc_umap', src='dispconc.cpp', defs=['VH_MAP=2'])]
+    res = vlib.build_many(ctx, specs)
+    for sp in specs:
+        if res[sp['name']][0] is None:
+            raise RuntimeError('harness dispconc.cpp (%s) does not compile against /repo: %s' % (sp['name'], res[sp['name']][1][-1500:]))
     cases = dispatcher_corpus()
     n0 = len(cases)
     for _ in range(ctx.budget(1200, 40000)):
         cases.append(dc_domain.gen_case(ctx.rng.fork()))
-    st, model, texts = qc_domain.correspond(ctx, binary, cases, 'EventDispatcher under threads', driver='dispconc', monitors=dc_domain.monitors)
+    half = n0 + (len(cases) - n0) // 2
+    st, model, texts = qc_domain.correspond(ctx, res['dispconc'][0], cases[:half], 'EventDispatcher under threads', driver='dispconc', monitors=dc_domain.monitors)
+    st2, model2, texts2 = qc_domain.correspond(ctx, res['dispconc_umap'][0], cases[:n0] + cases[half:], 'EventDispatcher (unordered_map) under threads',
+                                               driver='dispconc', monitors=dc_domain.monitors)
+    for k in ('compared', 'actions', 'disagreements', 'monitor_alarms', 'distinct'):
+        st[k] += st2[k]
+    walks = sum(1 for c in cases if any(x[0] in ('walk', 'dispatch') for th in c['threads'] for x in th))
     blocked = sum(1 for i, m in model.items() if any(l.startswith('act') for l in m))
     return {'dispatcher_schedules_replayed_on_impl': st['compared'], 'dispatcher_visible_actions_compared': st['actions'],
             'dispatcher_disagreements': st['disagreements'], 'dispatcher_monitor_alarms': st['monitor_alarms'],
-            'dispatcher_distinct_nontrivial': st['distinct'], 'dispatcher_corpus_cases': n0}
+            'dispatcher_distinct_nontrivial': st['distinct'], 'dispatcher_corpus_cases': n0, 'dispatcher_schedules_with_walks': walks,
+            'dispatcher_variants': ['dispconc (std::map)', 'dispconc_umap (library default map)']}
 
 
 def run(ctx):
